@@ -104,6 +104,8 @@ inductive Outcome where
   /-- `storage.remove(oldItem)` did not find `oldItem`, `DestroyValue(oldItem)` freed a string the tree still points to:
       the next comparison reads freed memory (undefined behaviour; in practice the loop never ends) -/
   | dangling
+  /-- `ACLDomainData::parse` refuses the value (only in trees that check for two leading dots: `Gen.DomainFold.rejectsMultiDot`) -/
+  | rejected
   /-- model artefact: loop budget exhausted (shown unreachable: every `continue` follows a successful removal) -/
   | fuel
   deriving DecidableEq, Repr
@@ -126,13 +128,22 @@ def mergeLoop : Nat → Tree Bytes → Bytes → List Event → Outcome
 def merge (t : Tree Bytes) (new : Bytes) (ev : List Event) : Outcome :=
   mergeLoop (t.size + 1) t new ev
 
-/-- `ACLDomainData::parse`: `while (char *t = strtokFile()) { Tolower(t); Merge(domains, xstrdup(t)); }` -/
+/-- `t[0] == '.' && t[1] == '.'` -/
+def multiDot : Bytes → Bool
+  | a :: b :: _ => a = DOT && b = DOT
+  | _ => false
+
+/-- `ACLDomainData::parse`: `while (char *t = strtokFile()) { Tolower(t); Merge(domains, xstrdup(t)); }`
+(a tree carrying the candidate fix first throws on a value that begins with two dots; whether the staged tree does is probed
+by running it: `Gen.DomainFold.rejectsMultiDot`) -/
 def parseFrom : List Bytes → Tree Bytes → List Event → Outcome
   | [], t, ev => .ok t ev
   | tok :: rest, t, ev =>
-    match merge t (fold tok) ev with
-    | .ok t' ev' => parseFrom rest t' ev'
-    | other => other
+    if Gen.DomainFold.rejectsMultiDot && multiDot (fold tok) then .rejected
+    else
+      match merge t (fold tok) ev with
+      | .ok t' ev' => parseFrom rest t' ev'
+      | other => other
 
 def parse (tokens : List Bytes) : Outcome := parseFrom tokens .nil []
 
